@@ -259,7 +259,24 @@ pub fn c06(cx: &RunCtx) {
         on_ok: None,
         family: None,
     };
+    let (bins1, uns1) = (cfg.bins.clone(), cfg.uns.clone());
     run_cfg(cx, cfg);
+    // every operation over all ordered pairs of the small integers -40..40 (sign rules of / % >>, shifts by every
+    // small count, small powers): a slip that needs one particular small pair is not in the boundary pool
+    let small: Vec<Leaf<I64>> = (-40i64..=40).map(|v| if v < 0 { Leaf::of(neg(lit(&(-v).to_string()))) } else { Leaf::of(lit(&v.to_string())) }).collect();
+    let cfg_small = TreeCfg::<I64> {
+        engine: "E-TREE i64 arithmetic over all pairs of -40..40".into(),
+        bins: bins1,
+        uns: uns1,
+        pool: small,
+        pool3: vec![],
+        depth: 1,
+        kinds: &kinds,
+        judge: None,
+        on_ok: None,
+        family: None,
+    };
+    run_cfg(cx, cfg_small);
 }
 
 // ---------------------------------------------------------------- C07
@@ -369,7 +386,40 @@ pub fn c07(cx: &RunCtx) {
         on_ok: None,
         family: Some(&|n, _t, at| dec_family_at(n, *at)),
     };
+    let bins1 = cfg.bins.clone();
     run_cfg(cx, cfg);
+    // all ordered pairs of small decimals of every scale 0..3 (k/4, k/8, tenths, hundredths, with and without
+    // trailing zeros), both signs: the scale and sign rules of + - * / % on ordinary values
+    let mut small: Vec<Leaf<Dec>> = Vec::new();
+    let mut texts: Vec<String> = Vec::new();
+    for k in 0..=40 {
+        texts.push(format!("{}", k as f64 / 4.0));
+        texts.push(format!("{}", k as f64 / 8.0));
+    }
+    for t in ["0.1", "0.2", "0.3", "0.7", "1.1", "1.10", "1.100", "2.50", "3.0", "3.00", "0.01", "0.05", "0.99", "9.99", "0.001", "0.125", "12.345", "100", "1000", "7", "13"] {
+        texts.push(t.to_string());
+    }
+    texts.sort();
+    texts.dedup();
+    for t in &texts {
+        small.push(Leaf::of(lit(t)));
+        if t != "0" {
+            small.push(Leaf::of(neg(lit(t))));
+        }
+    }
+    let cfg_small = TreeCfg::<Dec> {
+        engine: "E-TREE decimal arithmetic over all pairs of small values of every scale vs exact rationals".into(),
+        bins: bins1,
+        uns: vec![UnOp::Neg],
+        pool: small,
+        pool3: vec![],
+        depth: 1,
+        kinds: &kinds,
+        judge: Some(&judge_dec_exact),
+        on_ok: None,
+        family: Some(&|n, _t, at| dec_family_at(n, *at)),
+    };
+    run_cfg(cx, cfg_small);
 }
 
 // ---------------------------------------------------------------- C09
@@ -405,7 +455,31 @@ pub fn c09(cx: &RunCtx) {
         on_ok: None,
         family: None,
     };
+    let (bins1, uns1) = (cfg.bins.clone(), cfg.uns.clone());
     run_cfg(cx, cfg);
+    // all ordered pairs of the small Integers -24..24 and the Floats k/2 (written with a point, so that 2.0 is a
+    // Float): every Integer / Float combination of every operation on ordinary values
+    let mut small: Vec<Leaf<Num>> = Vec::new();
+    for v in -24i64..=24 {
+        small.push(if v < 0 { Leaf::of(neg(lit(&(-v).to_string()))) } else { Leaf::of(lit(&v.to_string())) });
+    }
+    for k in -16i64..=16 {
+        let t = format!("{:.1}", k.abs() as f64 / 2.0);
+        small.push(if k < 0 { Leaf::of(neg(lit(&t))) } else { Leaf::of(lit(&t)) });
+    }
+    let cfg_small = TreeCfg::<Num> {
+        engine: "E-TREE number arithmetic over all pairs of small Integers and Floats".into(),
+        bins: bins1,
+        uns: uns1,
+        pool: small,
+        pool3: vec![],
+        depth: 1,
+        kinds: &kinds,
+        judge: None,
+        on_ok: None,
+        family: None,
+    };
+    run_cfg(cx, cfg_small);
 }
 
 // ---------------------------------------------------------------- union-of-everything trees for C01 / C02
